@@ -259,7 +259,7 @@ class Ctx:
         return code
 
 
-GEN_FILES = ["GenTables", "GenArches", "GenNames", "GenStubs", "GenConsts"]
+GEN_FILES = ["GenTables", "GenArches", "GenNames", "GenStubs", "GenConsts", "GenSkeletons"]
 
 TRUSTED_BASE = [
     "Coq 8.16.1 kernel (coqc; vm_compute used for reflection, no native_compute); coqchk in the thorough tier",
